@@ -78,3 +78,14 @@ func (m *Manager) VerifSecretState() []VerifSecret {
 	}
 	return out
 }
+
+// VerifPoint, when set by a conformance harness, is called at named points of
+// the address manager (e.g. "nextaddr.oncommit" at the start of the commit
+// callback of nextAddresses). A blocking callback doubles as a scheduler gate.
+var VerifPoint func(name string)
+
+func verifPoint(name string) {
+	if f := VerifPoint; f != nil {
+		f(name)
+	}
+}
